@@ -142,6 +142,38 @@ def write_evidence(prop, tier, seed, level, result, rule, wall, assumptions, nvi
     return path
 
 
+def probe_with(replay_fn):
+    """known-finding probe: the finding names a saved input; it 'still reproduces' when that input still fails"""
+    def probe(finding):
+        path = finding.get('probe')
+        if not path:
+            return None
+        rp = json.load(open(os.path.join(VERIF, path)))
+        return bool(replay_fn(rp))
+    return probe
+
+
+def corpus_violations(prop, replay_fn):
+    """seconds-long replay tier: every saved input under corpus/<prop>/ must pass"""
+    d = os.path.join(VERIF, 'corpus', prop)
+    out = {'evaluations': 0, 'violations': [], 'infra': [], 'extra': {'corpus_replayed': 0}}
+    if not os.path.isdir(d):
+        return out
+    for f in sorted(os.listdir(d)):
+        if not f.endswith('.json') or f.startswith('kf-'):
+            continue
+        try:
+            rp = json.load(open(os.path.join(d, f)))
+            out['extra']['corpus_replayed'] += 1
+            out['evaluations'] += 1
+            if replay_fn(rp):
+                out['violations'].append({'signature': 'corpus:' + f, 'summary': 'saved regression input %s fails again' % f,
+                                          'replay': rp})
+        except Exception:
+            out['infra'].append('corpus replay %s crashed:\n%s' % (f, traceback.format_exc()))
+    return out
+
+
 def finish(prop, tier, seed, level, result, rule, assumptions, t0, replay_fn, known_probe_fn=None, extra_cov=None):
     """common tail of every check: known findings, confirmation of violations (3 replays), evidence, exit code"""
     known = known_for(prop)
